@@ -82,7 +82,7 @@ impl Check for C06 {
         "C06"
     }
     fn rule(&self) -> &'static str {
-        "case = 1-4 modes sharing token types, sorted transition tables with 0-4 entries (self-loops, transitions on token types of other modes, transitions nobody triggers), one input, a history of next | peek_n | set_mode | set_offset | with_offset (on the iterator in use) | current_mode | mode_name on an iterator plus Scanner::set_mode and creation of fresh iterators; oracle = mode-tracking model compared after every step: each returned token must be a candidate of the model's current mode, current_mode() must equal the model mode (transition target after a token with a transition, unchanged otherwise and after peeks, m after set_mode(m)), mode_name(i) the configured name or None, every new iterator starts in mode 0; non-trivial = a transition fired and a token without transition was consumed in a mode != 0"
+        "case = 1-4 modes sharing token types, sorted transition tables with 0-4 entries (self-loops, transitions on token types of other modes, transitions nobody triggers), one input, a history of next | peek_n | set_mode | set_offset | with_offset (on the iterator in use) | current_mode | mode_name on an iterator plus Scanner::set_mode and creation of fresh iterators; oracle = mode-tracking model compared after every step: each returned token must be a candidate of the model's current mode, current_mode() must equal the model mode (transition target after a token with a transition, unchanged otherwise and after peeks, m after set_mode(m)), mode_name(i) the configured name or None (on the Scanner for every index, and in ~9% of the cases after a scanner with the same patterns and transitions but other mode names was built through the cache), every new iterator starts in mode 0; non-trivial = a transition fired and a token without transition was consumed in a mode != 0"
     }
     fn cases(&self, thorough: bool) -> usize {
         if thorough {
@@ -94,6 +94,9 @@ impl Check for C06 {
     fn generate(&self, d: &mut Dec, thorough: bool) -> Case {
         let mut case = gen_mode_graph_case(d, thorough, 24);
         let nm = case.modes.len();
+        if d.chance(24) {
+            case.extra = serde_json::json!({"renamed_sibling": true});
+        }
         let nops = 4 + d.below(if thorough { 40 } else { 26 });
         for _ in 0..nops {
             case.ops.push(match d.weighted(&[12, 3, 3, 2, 2, 1, 1, 2]) {
@@ -141,7 +144,26 @@ impl Check for C06 {
             }
         }
         let mut st = CaseStats::default();
-        let mut scanner = match build_guarded(case, false)? {
+        // a scanner with the same patterns and transitions under other mode names is built
+        // through the cache first: the names reported below must still be this case's
+        // (the cache never evicts: the device is used at most 60 000 times per process)
+        static SIBLINGS: std::sync::atomic::AtomicUsize = std::sync::atomic::AtomicUsize::new(0);
+        let renamed_sibling = case.extra.get("renamed_sibling").is_some()
+            && SIBLINGS.fetch_add(1, std::sync::atomic::Ordering::Relaxed) < 60_000;
+        if renamed_sibling {
+            let mut sib = case.clone();
+            let names: Vec<String> = case.modes.iter().map(|m| m.name.clone()).collect();
+            for (i, m) in sib.modes.iter_mut().enumerate() {
+                m.name = if nm > 1 && names[(i + 1) % nm] != names[i] {
+                    names[(i + 1) % nm].clone()
+                } else {
+                    format!("{}_", names[i])
+                };
+            }
+            let _ = guard(|| sib.build().map(|_| ()));
+            st.count("renamed_sibling_built_first");
+        }
+        let mut scanner = match build_guarded(case, renamed_sibling)? {
             Ok(s) => s,
             Err(_) => {
                 st.count("build_failed");
@@ -149,6 +171,13 @@ impl Check for C06 {
                 return Ok(st);
             }
         };
+        for i in 0..nm + 2 {
+            let got = scanner.mode_name(i).map(|s| s.to_string());
+            let exp = case.modes.get(i).map(|m| m.name.clone());
+            if got != exp {
+                return Err(Failure::new("c06.mode_name", format!("Scanner::mode_name({}) differs", i)).exp_obs(exp, got));
+            }
+        }
         let model = case.model();
         let input = case.input();
         let text = Text::new(input);
